@@ -102,11 +102,22 @@ def py_format(I, v, spec, node=None):
             # zero padded decimal of a non-negative int: uninterpreted, injective on n >= 0
             # (assumption recorded); exact digits are not needed by any obligation
             width = int(m.group(1))
-            if not I.st.implied(to_zint(v) >= 0):
+            zv = to_zint(v)
+            if not I.st.implied(zv >= 0):
                 raise Unsupported("zero-padded format of a possibly negative int")
-            I.st.assumed.append(f"format(n, '0{width}') is injective on n >= 0 (uninterpreted)")
+            note = (f"format(n, '0{width}') for n >= 0 is an uninterpreted function: injective, at least {width} "
+                    f"characters, exactly {width} when n < 10**{width} (assumed; true of python's format)")
+            if note not in I.st.assumed:
+                I.st.assumed.append(note)
             f = z3.Function(f'fmt0_{width}', z3.IntSort(), z3.StringSort())
-            return SStr([Sq(f(to_zint(v)))])
+            t = f(zv)
+            I.st.assume(z3.Length(t) >= width)
+            I.st.assume(z3.Implies(zv < 10 ** width, z3.Length(t) == width))
+            apps = I.st.notes.setdefault(('fmt0', width), [])
+            for other in apps:
+                I.st.assume(z3.Implies(other != zv, f(other) != t))
+            apps.append(zv)
+            return SStr([Sq(t)])
     raise Unsupported(f"format spec {spec!r} on a symbolic value")
 
 
@@ -578,8 +589,11 @@ def str_method(I, s, name, args, kwargs, node):
             return bool_value(zor(*[str_endswith(s, q) for q in p]))
         return bool_value(str_endswith(s, p))
     if name == 'encode':
+        enc = args[0] if args else kwargs.get('encoding', 'utf-8')
+        if enc not in ('utf-8', 'utf8', 'UTF-8'):
+            raise Unsupported("encode with a non utf-8 encoding")
         if isinstance(s, str):
-            return s.encode(*args)
+            return s.encode('utf-8')
         return SBytes(s)
     if name == 'upper':
         if isinstance(s, str):
